@@ -23,6 +23,7 @@ type c04Case struct {
 	Format string       `json:"format"`
 	Entry  string       `json:"entry"`           // md | root | noiter | md-massive
 	Tty    bool         `json:"tty,omitempty"`   // the writer is a terminal (slave side of a pseudo terminal)
+	Copy   bool         `json:"copy,omitempty"`  // root entry: the root is handed over as a copy by value (cp := *root; &cp), which shares the children
 	Again  int          `json:"again,omitempty"` // root entry: the tree was already encoded once when its last Again nodes were still missing
 }
 
@@ -41,6 +42,7 @@ func c04Check(c c04Case) string {
 		cs.Entry = "root"
 		cs.Root = &c.Forest[0].Name
 		cs.Prog = preorderProgram(model.Merge(c.Forest)[0])
+		cs.CopyRoot = c.Copy
 		if c.Again > 0 && c.Again < len(cs.Prog) {
 			cs.MidProg = cs.Prog[len(cs.Prog)-c.Again:]
 			cs.Prog = cs.Prog[:len(cs.Prog)-c.Again]
@@ -145,7 +147,7 @@ func c04Record(col *collector, c c04Case) {
 	if c.Tty {
 		cl = append(cl, "writer-is-a-terminal")
 	}
-	col.eval(hostile && m.Depth() >= 2, hash64(c.Forest.String(), c.Format, c.Entry, fmt.Sprint(c.Again, c.Tty)), cl...)
+	col.eval(hostile && m.Depth() >= 2, hash64(c.Forest.String(), c.Format, c.Entry, fmt.Sprint(c.Again, c.Tty, c.Copy)), cl...)
 	col.sample(func() any { return map[string]any{"forest": c.Forest.String(), "format": c.Format, "entry": c.Entry} })
 }
 
@@ -295,6 +297,7 @@ func c04Gen() *rapid.Generator[c04Case] {
 		}
 		c := c04Case{Forest: f, Format: format, Entry: entry}
 		c.Tty = rapid.IntRange(0, 5).Draw(t, "tty") == 0 && ptyOK()
+		c.Copy = entry == "root" && rapid.IntRange(0, 3).Draw(t, "copy") == 0
 		if entry == "root" && rapid.IntRange(0, 2).Draw(t, "again") == 0 {
 			c.Again = rapid.IntRange(1, 4).Draw(t, "nAgain")
 		}
